@@ -401,9 +401,9 @@ func init() {
 	Register(&Prop{
 		ID:        "C07",
 		Technique: "bounded exhaustive enumeration of inheritance graphs (DAGs, diamonds, cycles, missing and non-object ancestors, overlapping keys, additionalProperties combinations) judged by a reference merge",
-		Rule: "@root, @a, @b, @c: objects with own keys from {k1,k2,k3,...} (required/optional/nested) or non-objects; allOf = every ordered list of <=2 of {@a,@b,@c,@x(unregistered),self}; additionalProperties in {absent,true,false,(thorough: \"string\",\"@c\")}; reference: refusal for non-object / missing / cyclic / duplicate key / conflicting additionalProperties, otherwise Example() keys = own then inherited in list order, OpenAPI property listing = same set with optional marks, compiled children marked InheritedFrom with required/optional status kept; non-trivial = every project (each has a reference verdict)",
-		Bounds: func(tier string) map[string]any { return map[string]any{"types": 4, "max_allOf_list": 2} },
-		Run:    c07Run,
+		Rule:      "@root, @a, @b, @c: objects with own keys from {k1,k2,k3,...} (required/optional/nested) or non-objects; allOf = every ordered list of <=2 of {@a,@b,@c,@x(unregistered),self}; additionalProperties in {absent,true,false,(thorough: \"string\",\"@c\")}; reference: refusal for non-object / missing / cyclic / duplicate key / conflicting additionalProperties, otherwise Example() keys = own then inherited in list order, OpenAPI property listing = same set with optional marks, compiled children marked InheritedFrom with required/optional status kept; non-trivial = every project (each has a reference verdict)",
+		Bounds:    func(tier string) map[string]any { return map[string]any{"types": 4, "max_allOf_list": 2} },
+		Run:       c07Run,
 		Replay: func(w *core.W, v *core.Violation) {
 			var m c07Model
 			if stdjson.Unmarshal(v.Witness, &m) == nil {
